@@ -138,6 +138,9 @@ _MUTATORS = frozenset(['setdefault', 'append', 'extend', 'insert', 'pop', 'popit
                        'discard', 'remove', 'sort', 'reverse', '__setitem__', '__delitem__'])
 _STORES = frozenset(['STORE_ATTR', 'STORE_SUBSCR', 'DELETE_ATTR', 'DELETE_SUBSCR'])
 _HOT_CACHE = {}
+import opcode as _opcode
+_STORE_GLOBAL = bytes([_opcode.opmap['STORE_GLOBAL']])
+_DELETE_GLOBAL = bytes([_opcode.opmap['DELETE_GLOBAL']])
 
 
 def _shared_object(v):
@@ -162,14 +165,27 @@ def hot_lines(code, globs):
     hit = _HOT_CACHE.get(key)
     if hit is not None:
         return hit
+    name = code.co_name
+    rule_body = name.startswith(('_try_', '_parse_function', '_raise_error'))
+    generated = code.co_filename.startswith('<') and code.co_filename.endswith('>')
+    # cheap pre-filter (most code objects are rule bodies that touch no shared object at all)
+    if (rule_body or not generated) and _STORE_GLOBAL not in code.co_code and _DELETE_GLOBAL not in code.co_code:
+        interesting = False
+        for n in code.co_names:
+            v = globs.get(n)
+            if _shared_object(v) or isinstance(v, types.ModuleType):
+                interesting = True
+                break
+        if not interesting:
+            res = frozenset()
+            _HOT_CACHE[key] = res
+            return res
     by_line = {}
     line = code.co_firstlineno
     for ins in dis.get_instructions(code):
         if ins.starts_line is not None:
             line = ins.starts_line
         by_line.setdefault(line, []).append(ins)
-    name = code.co_name
-    rule_body = name.startswith(('_try_', '_parse_function', '_raise_error'))
     out = set()
     for line, inss in by_line.items():
         ops = [i.opname for i in inss]
@@ -179,8 +195,16 @@ def hot_lines(code, globs):
         if any(i.opname == 'LOAD_GLOBAL' and _shared_object(globs.get(i.argval)) for i in inss):
             out.add(line)
             continue
-        if not rule_body and (any(o in _STORES for o in ops)
-                              or any(i.opname in ('LOAD_ATTR', 'LOAD_METHOD') and i.argval in _MUTATORS for i in inss)):
+        stores = any(o in _STORES for o in ops)
+        mutcall = any(i.opname in ('LOAD_ATTR', 'LOAD_METHOD') and isinstance(i.argval, str)
+                      and (i.argval in _MUTATORS or i.argval.startswith('set')) for i in inss)
+        # state of a *module* (sys.modules[...] = , sys.setrecursionlimit(...), parent.attr = ...)
+        if (stores or mutcall) and any(i.opname == 'LOAD_GLOBAL' and isinstance(globs.get(i.argval), types.ModuleType)
+                                       for i in inss):
+            out.add(line)
+            continue
+        # in generated driver-level functions: stores into whatever they hold (memo, metadata, wrappers)
+        if generated and not rule_body and (stores or mutcall):
             out.add(line)
     res = frozenset((code, ln) for ln in out)
     if len(_HOT_CACHE) > 5000:
@@ -569,6 +593,7 @@ class OneShot(Targeted):
         self.j = j
         self.count = 0
         self.fired = False
+        self.visits = {}
 
     def on_step(self, sim, t, code, line):
         if self.grace is t or self.fired:
@@ -576,8 +601,17 @@ class OneShot(Targeted):
         key = (code, line)
         hot = key in sim.hot
         if hot or t.after_hot:
+            # count DISTINCT shared-state lines (and the lines right after them) as they are first
+            # reached in the run: every window gets the same chance, however often it recurs later
+            k2 = key if hot else ('after', key)
             t.after_hot = hot
             sim.hot_hits += 1
+            # ... up to the third time: the first use of a second call site or object runs through
+            # the same line again
+            n = self.visits.get(k2, 0) + 1
+            if n > 3:
+                return None
+            self.visits[k2] = n
             self.count += 1
             if self.count == self.j:
                 self.fired = True
